@@ -174,4 +174,7 @@ def json_lines(res: TLCResult, key: Optional[str] = "id") -> List[dict]:
                 continue
             seen[k] = s
         out.append(o)
+    # TLC's workers print in a run-dependent order: return the cases in a canonical order, so that everything a harness derives from a case's
+    # position (call-form variants, seeded sub-samples) is the same in every run
+    out.sort(key=lambda o_: json.dumps(o_, sort_keys=True))
     return out
